@@ -129,6 +129,16 @@ func ColdMain(t *testing.T, id string, first map[string]func(), battery func(w *
 	if !ok {
 		t.Fatalf("unknown cold scenario %q", scenario)
 	}
+	// a scenario named "tz=<IANA zone>; ..." runs in a process whose local time zone is that zone (the check package embeds
+	// time/tzdata): the zone a program happens to run in is a setting like any other
+	if strings.HasPrefix(scenario, "tz=") {
+		zone := strings.TrimSpace(strings.SplitN(scenario[3:], ";", 2)[0])
+		loc, err := time.LoadLocation(zone)
+		if err != nil {
+			t.Fatalf("cold scenario %q: %v", scenario, err)
+		}
+		time.Local = loc
+	}
 	w.Guard(map[string]string{"first_call": scenario}, f)
 	battery(w)
 	ColdReport(t, w)
